@@ -776,31 +776,27 @@ namespace awkward {
     while (stream.Peek() != 0) {
       handler.reset_moved();
       bool fully_parsed = reader.Parse<rj::kParseStopWhenDoneFlag>(stream, handler);
-      if (handler.moved()) {
-        if (!fully_parsed) {
-          if (stream.Peek() == 0) {
-            throw std::invalid_argument(
-                std::string("incomplete JSON object at the end of the stream")
-                + FILENAME(__LINE__));
-          }
-          else {
-            throw std::invalid_argument(
-              std::string("JSON File error at char ")
-              + std::to_string(stream.Tell()) + std::string(": \'")
-              + stream.Peek() + std::string("\'")
+      if (!fully_parsed) {
+        if (!handler.moved()  &&
+            reader.GetParseErrorCode() == rj::kParseErrorDocumentEmpty) {
+          // only whitespace was left in the stream
+          break;
+        }
+        if (stream.Peek() == 0) {
+          throw std::invalid_argument(
+              std::string("incomplete JSON object at the end of the stream")
               + FILENAME(__LINE__));
-          }
         }
         else {
-          number++;
+          throw std::invalid_argument(
+            std::string("JSON File error at char ")
+            + std::to_string(stream.Tell()) + std::string(": \'")
+            + stream.Peek() + std::string("\'")
+            + FILENAME(__LINE__));
         }
       }
-      else if (stream.Peek() != 0) {
-        throw std::invalid_argument(
-          std::string("JSON File error at char ")
-          + std::to_string(stream.Tell()) + std::string(": \'")
-          + stream.Peek() + std::string("\'")
-          + FILENAME(__LINE__));
+      else {
+        number++;
       }
     }
 
